@@ -2,7 +2,7 @@
    Statements only; proofs in Proofs/Citations*.v; the vocabulary of the statements (dedup_ci,
    threshold_hits, missing_of, dangling_of, parents_follow_children ...) is Spec/Citations.v. *)
 From Pybtex Require Import Base.Prelude Base.PyChar Base.PyStr Model.Citations Spec.Citations
-  Proofs.CitationsBase Proofs.Citations Proofs.CitationsFiltered Proofs.CitationsMore Proofs.CitationsReports Proofs.CitationsFile.
+  Proofs.CitationsBase Proofs.Citations Proofs.CitationsFiltered Proofs.CitationsMore Proofs.CitationsReports Proofs.CitationsFile Proofs.CitationsReach.
 
 Definition K (s : string) : key := s2l s.
 
@@ -172,6 +172,33 @@ Theorem whole_dangling_is_dangling_in_file : forall db cites m c p,
   existsb (keyb p) (map fst db) = false.
 Proof. exact whole_dangling_file_lemma. Qed.
 Print Assumptions whole_dangling_is_dangling_in_file.
+(* filtered_equals_unfiltered speaks of the EMITTED keys only (one level of cross-references).  What the
+   filtered reading leaves in bib_data.entries matters too (fields are inherited along crossref CHAINS):
+   every key reachable from the citations through chains of cross-references (of first entries) is kept iff
+   the file has it, and what is kept is the first entry of that key -- provided each (uncited) target comes
+   after the reachable entry naming it (the ordering rule along the whole chain) *)
+Theorem reader_keeps_reachable : forall db cites, ancestors_follow_descendants db cites ->
+  forall q, reach db cites q ->
+  ed_mem q (bd_entries (read_db (Some cites) db)) = existsb (keyb q) (map fst db) /\
+  (forall e, first_entry q db = Some e ->
+     exists k', ed_get q (bd_entries (read_db (Some cites) db)) = Some (k', snd e) /\ keyb k' (fst e) = true).
+Proof. exact reader_keeps_reachable_lemma. Qed.
+Print Assumptions reader_keeps_reachable.
+
+(* hence the entries whose fields a reachable entry sees (Entry._find_field's walk along crossref) are the
+   same, up to letter case, in the filtered and in the whole reading -- for every walk length *)
+Theorem filtered_chain_equals_unfiltered : forall db cites, ancestors_follow_descendants db cites ->
+  forall n q, reach db cites q ->
+  map lower (chain (bd_entries (read_db (Some cites) db)) n q) = map lower (chain (bd_entries (read_db None db)) n q).
+Proof. exact filtered_chain_lemma. Qed.
+Print Assumptions filtered_chain_equals_unfiltered.
+Example chain_afd_example :
+  ancestors_follow_descendants chain_db [s2l "c"] /\
+  ed_keys (bd_entries (read_db (Some [s2l "c"]) chain_db)) = [s2l "c"; s2l "p"; s2l "g"] /\
+  chain (bd_entries (read_db (Some [s2l "c"]) chain_db)) 4 (s2l "c") = [s2l "c"; s2l "p"; s2l "g"] /\
+  ed_keys (bd_entries (read_db (Some [s2l "c"]) (rev chain_db))) = [s2l "c"].
+Proof. split; [exact chain_db_afd|exact chain_example]. Qed.
+
 (* the hypothesis is met by a non-trivial database (child before parent, threshold 2, mixed case) and is
    exactly what the F13 witness violates *)
 Example pfc_example :
